@@ -281,6 +281,8 @@ func classifyCommon(err error) string {
 	}
 	msg := err.Error()
 	switch {
+	case strings.HasPrefix(msg, "verif-cycle-recursion"):
+		return "cycle-recursion"
 	case strings.Contains(msg, "does not allow null or empty values"):
 		return "empty"
 	case strings.Contains(msg, "already exists with id"):
